@@ -115,8 +115,10 @@ class Unsupported(Exception):
 class PathSum:
     MAX_PATHS = 20000
 
-    def __init__(self, enums=None):
+    def __init__(self, enums=None, inline=None):
         # enum path -> list of variant names (from crate facts); Result/Option built in
+        self.inline = inline or {}     # callee def path -> body facts: small local helpers evaluated in place
+        self._inl_depth = 0
         self.enums = {RESULT: ["Ok", "Err"], OPTION: ["None", "Some"]}
         if enums:
             self.enums.update(enums)
@@ -202,6 +204,11 @@ class PathSum:
         if t[0] == "not":
             a, b = self.split_bool(st, t[1])
             return b, a
+        if t[0] == "bin" and t[1] in ("Eq", "Ne"):
+            for a_, b_ in ((t[2], t[3]), (t[3], t[2])):
+                if b_[0] == "ctor" and not b_[2] and a_[0] != "ctor" and parent(b_[1]) in self.enums:
+                    y, n = self.split(st, a_, b_[1])
+                    return (y, n) if t[1] == "Eq" else (n, y)
         for c in st.conds:
             if c[0] == "true" and c[1] == t:
                 return (st, None) if c[2] else (None, st)
@@ -780,6 +787,28 @@ class PathSum:
                 res.append(o)
         return res
 
+    def inline_call(self, callee, args, st):
+        b = self.inline[callee]
+        if self._inl_depth > 4:
+            raise Unsupported("inline depth")
+        self._inl_depth += 1
+        try:
+            s = st
+            for p, a in zip(b["params"], args):
+                m, _ = self.match_pat(s, a, p)
+                if not m:
+                    return []
+                s = m[0]
+            res = []
+            for o in self.ev(b["value"], s):
+                if o[0] in ("val", "ret", "err"):
+                    res.append(("val", o[1], o[2]))
+                else:
+                    res.append(o)
+            return res
+        finally:
+            self._inl_depth -= 1
+
     def call_fn_term(self, ft, args, st, site, node):
         if ft[0] == "closure":
             return self.apply_closure(ft[1], args, st)
@@ -807,6 +836,9 @@ class PathSum:
                 if r is not None:
                     out += r
                     continue
+                if callee in self.inline:
+                    out += self.inline_call(callee, v, s)
+                    continue
                 s = s.fork()
                 s.add_effect(("call", callee, tuple(v), site))
                 out.append(("val", s, ("call", callee, tuple(v), site)))
@@ -826,6 +858,9 @@ class PathSum:
             r = self.combinator(callee, v, s, site, e)
             if r is not None:
                 out += r
+                continue
+            if callee in self.inline:
+                out += self.inline_call(callee, v, s)
                 continue
             s = s.fork()
             s.add_effect(("call", callee, tuple(v), site))
